@@ -2,3 +2,5 @@ pub mod fx;
 pub mod fixed;
 pub mod elem;
 pub mod rng;
+pub mod px;
+pub mod pxx;
